@@ -40,6 +40,19 @@ fn setup(g: &mut G, n_names: usize, seed_writes: usize) -> Vec<Op> {
     p
 }
 
+/// One run in three works on a database that went through recovery: the setup is written by a
+/// first instance (no threads), closed, and the threads run against the reopened directory
+/// (recovered keyspaces and counters are wired up by different code than fresh ones).
+fn maybe_reopened(g: &mut G, program: &mut Vec<Op>) -> &'static str {
+    if g.r.chance(1, 3) {
+        let at = program.iter().position(|o| matches!(o, Op::RunThreads)).unwrap_or(program.len());
+        program.insert(at, Op::Reopen);
+        "+reopened"
+    } else {
+        ""
+    }
+}
+
 /// C14: concurrent single operations are linearizable and no write is lost
 pub fn gen_c14(tier: Tier, seed: u64) -> Case {
     let mut r = Rng::stream(seed, "workload");
@@ -96,6 +109,8 @@ pub fn gen_c14(tier: Tier, seed: u64) -> Case {
         threads.push(ops);
         class.push_str("+keyspace-churn");
     }
+    let mut program = program;
+    class.push_str(maybe_reopened(&mut g, &mut program));
     thr_case("C14", seed, &g, program, threads, class)
 }
 
@@ -164,7 +179,8 @@ pub fn gen_c06(tier: Tier, seed: u64) -> Case {
         }
         threads.push(ops);
     }
-    let class = format!("{:?}-w{}r{}", kind, n_writers, n_readers);
+    let mut program = program;
+    let class = format!("{:?}-w{}r{}{}", kind, n_writers, n_readers, maybe_reopened(&mut g, &mut program));
     thr_case("C06", seed, &g, program, threads, class)
 }
 
@@ -221,7 +237,8 @@ pub fn gen_c05t(tier: Tier, seed: u64) -> Case {
         }
         threads.push(ops);
     }
-    let class = format!("thr-{:?}", kind);
+    let mut program = program;
+    let class = format!("thr-{:?}{}", kind, maybe_reopened(&mut g, &mut program));
     thr_case("C05", seed, &g, program, threads, class)
 }
 
@@ -263,7 +280,9 @@ pub fn gen_c07t(tier: Tier, seed: u64) -> Case {
         }
         threads.push(ops);
     }
-    thr_case("C07", seed, &g, program, threads, "thr".into())
+    let mut program = program;
+    let class = format!("thr{}", maybe_reopened(&mut g, &mut program));
+    thr_case("C07", seed, &g, program, threads, class)
 }
 
 /// C08 (THR part): competing single-writer read-modify-write loops
@@ -292,7 +311,9 @@ pub fn gen_c08t(tier: Tier, seed: u64) -> Case {
         }
         threads.push(ops);
     }
-    thr_case("C08", seed, &g, program, threads, "thr-rmw".into())
+    let mut program = program;
+    let class = format!("thr-rmw{}", maybe_reopened(&mut g, &mut program));
+    thr_case("C08", seed, &g, program, threads, class)
 }
 
 /// C13 (THR part): several writer threads and fjall's own workers with an injected journal I/O error
